@@ -775,7 +775,8 @@ class LLMRails:
                 cache_key = get_history_cache_key(messages + [new_message])
                 self.events_history_cache[cache_key] = events
             else:
-                output_state = {"events": events}
+                # The new state must carry the whole history, not just the last turn.
+                output_state = {"events": state_events + events}
 
         # If logging is enabled, we log the conversation
         # TODO: add support for logging flag
